@@ -181,14 +181,16 @@ pub fn into_tokens(c: char, it: &mut Peekable<Chars>, state: &mut State) -> LexR
                 }
                 string.push(c);
 
-                if !back_slash {
-                    if build_cur_expr > 0 {
-                        cur_expr.push(c);
-                    }
+                if build_cur_expr > 0 {
+                    cur_expr.push(c);
+                }
 
+                if !back_slash {
                     if c == '{' {
                         if build_cur_expr == 0 {
-                            cur_offset = state.pos.offset_pos(string.len() + 1);
+                            // position just after the '{': opening quote plus string so far
+                            cur_offset = Token::Str(string.clone(), vec![]).end(state.pos);
+                            cur_offset.pos -= 1;
                         }
                         build_cur_expr += 1;
                     } else if c == '}' {
@@ -222,7 +224,7 @@ pub fn into_tokens(c: char, it: &mut Peekable<Chars>, state: &mut State) -> LexR
                     .map(|(offset, string)| match tokenize_direct(string) {
                         Ok(tokens) => Ok(tokens
                             .iter()
-                            .map(|lex| Lex::new(lex.pos.offset(offset).start, lex.token.clone()))
+                            .map(|lex| offset_lex(lex, offset))
                             .collect()),
                         Err(err) => Err(err),
                     })
@@ -241,6 +243,29 @@ pub fn into_tokens(c: char, it: &mut Peekable<Chars>, state: &mut State) -> LexR
             &format!("unrecognized character: {c}"),
         )),
     }
+}
+
+/// Move a token of an interpolated expression, and everything nested in it, to where the
+/// expression starts in the enclosing source.
+fn offset_lex(lex: &Lex, offset: &CaretPos) -> Lex {
+    // only the first line of an expression is shifted horizontally
+    let start = if lex.pos.start.line == 1 {
+        lex.pos.start.offset(offset)
+    } else {
+        lex.pos.start.offset(&CaretPos::new(offset.line, 1))
+    };
+
+    let token = match &lex.token {
+        Token::Str(string, nested) => {
+            let nested = nested
+                .iter()
+                .map(|tokens| tokens.iter().map(|lex| offset_lex(lex, offset)).collect())
+                .collect();
+            Token::Str(string.clone(), nested)
+        }
+        token => token.clone(),
+    };
+    Lex::new(start, token)
 }
 
 fn next_and_create(
